@@ -110,9 +110,11 @@ class Env(object):
                 raise OutsideDomain()
 
     def eps_zero(self):
-        """identities are decided at EPS = 0 (DESIGN.md 2.2)"""
+        """identities are decided at EPS = 0 (DESIGN.md 2.2): asserted for the path conditions and
+        substituted into the obligation terms before they are normalised"""
         if self.sym:
             self.ex.assume.append(z3.Real("EPS") == 0)
+            self.ex.eps_zero = True
 
     def tag(self, t):
         self.tags.append(t)
@@ -205,6 +207,10 @@ def decide(ex, got, want, timeout_ms, extra=()):
     low = ex.low
     pre = list(ex.assume) + ex.path_constraints() + list(extra)
     dt_total = 0.0
+    if getattr(ex, "eps_zero", False):
+        m0 = {dag.var("EPS"): ZERO}
+        memo = {}
+        got, want = dag.subst(got, m0, memo), dag.subst(want, m0, memo)
     try:
         D = poly.normalized_difference(got, want)
     except (poly.TooBig, NotImplementedError, RecursionError):
